@@ -145,6 +145,46 @@ func (ix *Index) Writers(fr FieldRef) []*ssa.Function {
 	return out
 }
 
+// WriteAccesses lists the individual store sites of a field.
+func (ix *Index) WriteAccesses(fr FieldRef) []Access {
+	var out []Access
+	for _, a := range ix.Accesses[fr] {
+		if a.Write {
+			out = append(out, a)
+		}
+	}
+	return out
+}
+
+// ctorOrBuilderWrite: the store happens while an object is being built: in a builder / registrar method, in Build or
+// ToExecutor, in a package-level function on an object that function itself allocated (a plain function that
+// mutates a configuration it was handed is NOT a constructor), in `extra`, or in a helper reachable only from those.
+func ctorOrBuilderWrite(ix *Index, a Access, extra func(*ssa.Function) bool) bool {
+	top := a.Fn
+	for top.Parent() != nil {
+		top = top.Parent()
+	}
+	if isBuilderMethod(top) || top.Name() == "Build" || top.Name() == "ToExecutor" || (extra != nil && extra(top)) {
+		return true
+	}
+	if top.Signature.Recv() == nil {
+		if fa, ok := a.Instr.(*ssa.FieldAddr); ok && isPrivateBase(fa.X) {
+			return true
+		}
+	}
+	if ix.isRoot(a.Fn) || len(ix.Refs[a.Fn]) == 0 {
+		return false
+	}
+	for _, r := range ix.Refs[a.Fn] {
+		if !ix.Within(r, func(f *ssa.Function) bool {
+			return isBuilderMethod(f) || isConstructorLike(f) || (extra != nil && extra(f))
+		}) {
+			return false
+		}
+	}
+	return true
+}
+
 // structFields lists the fields of a named struct in a scope package.
 func (p *Program) structFields(rel, name string) []*types.Var {
 	n := p.NamedType(rel, name)
